@@ -1078,7 +1078,35 @@ func oracleLedger(o *e2eOutcome, v vfn) {
 				}
 			}
 			changed := fileChangedAfter(o, p.Name, p.Hash)
-			if pi >= nrec && !resent && !changed && o.terminated && !senderCrashedAfter(o, r) {
+			// written again (content or just the modification time) after the scan that
+			// found the version this request carried: a new version for the sender, sent
+			// again as a whole
+			found, scanBegin := 0, 0
+			for _, e := range o.events {
+				if e.Seq >= r.Seq {
+					break
+				}
+				if e.Kind == "scan" {
+					scanBegin = int(e.B)
+				}
+				if e.Kind == "cache_add" && e.Name == p.Name {
+					found = scanBegin
+				}
+			}
+			for _, e := range o.events {
+				if e.Kind == "write_source" && e.Name == p.Name && e.Seq > found {
+					changed = true
+				}
+			}
+			// confirmed (an identical copy was validated at the receiver) and released after
+			// this request began: there is nothing left to send, possibly no file either
+			released := false
+			for _, e := range o.events {
+				if (e.Kind == "cache_done" || e.Kind == "remove") && e.Name == p.Name && e.Seq > r.Seq {
+					released = true
+				}
+			}
+			if pi >= nrec && !resent && !changed && !released && o.terminated && !senderCrashedAfter(o, r) {
 				v("C08", "remainder-sent-again", "part-abandoned", fmt.Sprintf("request #%d (%s) failed with %d leading parts reported as recorded; part %d %s%s was never sent again", r.ID, r.Fault, nrec, pi, p.Name, fmtIv(p.Beg, p.End)))
 			}
 			if pi < nrec && resent && !changed && !failedValidation(o, p.Name) {
